@@ -535,6 +535,14 @@ fn corpus(jobs: &mut Vec<Job>) {
     jobs.push(Job { prefix: "corpus:null-typed-partition/".into(), t, reals: vec![one(3), fixed_real(vec![0, 2, 3], vec![true, false], false, 999, Mode::Mem), fixed_real(vec![0, 2, 3], vec![true, true], false, 999, Mode::Mem), fixed_real(vec![0, 1, 3], vec![true, true], true, 999, Mode::Mem)],
         queries: vec![Query { kind: Kind::Ord, items: vec![Item::Expr(Ex::Col(0)), Item::Expr(Ex::Col(2)), Item::Expr(Ex::Col(1))], pred: None, order: vec![(2, true), (1, false)], limit: Some(4), offset: 0, feat: "w-+kivs^+lim".into() },
             Query { kind: Kind::Ord, items: vec![Item::Expr(Ex::Col(0))], pred: Some(Ex::Cmp("=", Box::new(Ex::Col(1)), Box::new(Ex::Lit(Cell::Str("ab".into()))))), order: vec![(2, false), (1, false), (2, false)], limit: None, offset: 0, feat: "w:s=+ki^s^i^".into() }] });
+    // where-null-partition-empty (C02/C03, open): WHERE constant for a whole partition + nullable selected column
+    let t = table(vec![("id", ColType::Id, ints(&[0, 1, 2, 3])), ("c1", ColType::Int("small"), oints(&[Some(3), None, Some(-1), None])), ("c2", ColType::Int("u8"), oints(&[Some(7), None, Some(9), Some(200)]))]);
+    jobs.push(Job { prefix: "corpus:where-null-partition-empty/".into(), t, reals: vec![one(4), fixed_real(vec![0, 1, 2, 3, 4], vec![true, true, true, true], false, 999, Mode::Mem), fixed_real(vec![0, 3, 4], vec![true, true], false, 999, Mode::Mem)],
+        queries: vec![Query { kind: Kind::Sel, items: vec![Item::Expr(Ex::Col(0)), Item::Expr(Ex::Col(1)), Item::Expr(Ex::Col(2))], pred: Some(Ex::Cmp(">=", Box::new(Ex::Col(1)), Box::new(Ex::Lit(Cell::Int(-3))))), order: vec![], limit: Some(2), offset: 0, feat: "w:i>=+lim".into() }] });
+    // minmax-float-infinity (C04/C02, open): MIN of a group {+inf} is f64::MAX in every layout
+    let t = table(vec![("id", ColType::Id, ints(&[1, 2])), ("c1", ColType::Float("edges"), vec![Cell::f(f64::INFINITY), Cell::f(1.5)])]);
+    jobs.push(Job { prefix: "corpus:minmax-float-infinity/".into(), t, reals: vec![one(2), fixed_real(vec![0, 1, 2], vec![true, false], false, 999, Mode::Mem), fixed_real(vec![0, 2], vec![true], false, 999, Mode::Disk)],
+        queries: vec![q_agg(Kind::Grp, vec![Item::Key(0), Item::Agg("min", 1), Item::Agg("max", 1)], "w-+I:miFmaF")] });
     // sum-sentinel (C04/C06/C02, open): a partial SUM equal to i64::MAX is taken for NULL when merged
     let t = table(vec![("id", ColType::Id, ints(&[1, 2, 3])), ("c1", ColType::Int("edges"), ints(&[i64::MAX - 2, 1, 1]))]);
     jobs.push(Job { prefix: "corpus:sum-sentinel/".into(), t, reals: vec![one(3), fixed_real(vec![0, 2, 3], vec![true, false], false, 999, Mode::Mem), fixed_real(vec![0, 1, 3], vec![true, false], false, 999, Mode::Mem)], queries: vec![q_agg(Kind::Agg, vec![Item::Agg("sum", 1)], "w-+su")] });
